@@ -170,6 +170,11 @@ func parseJSONPointCoords(
 			return coords, nil, errCoordinatesInvalid
 		}
 	}
+	if !rcoords.IsArray() {
+		// coordinates handed in by a Multi* parent: an object in place of the
+		// array would otherwise be walked value by value and accepted
+		return coords, nil, errCoordinatesInvalid
+	}
 	var err error
 	var count int
 	var nums [4]float64
